@@ -381,10 +381,7 @@ type known struct {
 // LoadKnown reads known_findings.txt entries for a property.
 func LoadKnown(id string) map[string]*known {
 	m := map[string]*known{}
-	b, err := os.ReadFile(filepath.Join(root, "known_findings.txt"))
-	if err != nil {
-		return m
-	}
+	b, _ := os.ReadFile(filepath.Join(root, "known_findings.txt"))
 	for _, line := range strings.Split(string(b), "\n") {
 		line = strings.TrimSpace(line)
 		if !strings.HasPrefix(line, "finding:") {
